@@ -203,6 +203,8 @@ class MemoryBank:
             else:
                 raw_data.append(None)
         if use_latch and self.has_latch:
+            # The reads above have disabled memory writes again
+            yield _EnableWriteMemory(addr)
             yield _DTR0(addr, 2)
             yield _WriteMemoryLocationNoReply(addr, 0xFF)
         result = {}
